@@ -26,8 +26,18 @@ import (
 // resting market-making orders, auctionsV2 limit bid) while Other1 / Other2 are funded but own nothing.
 // The state is valid at Ctx (a later block than the context handed to c12Setup because liquidity
 // orders can only be cancelled in a later batch than the one they were placed in).
+//
+// c12SetupN builds the same state with SEVERAL position owners and returns one c12World per owner
+// (a "view": same Ctx and configuration, Owner and the position ids are that user's).  The positions
+// of the different kinds are created in different user orders, so that the numeric ids of different
+// kinds are deliberately MISALIGNED across owners (see c12Orders): the owner of vault #n is not the
+// owner of lend #n, the owner of borrow #n is not the owner of lend #n, ...
 type c12World struct {
 	Ctx sdk.Context
+
+	// index of this view's Owner among the position owners, and all position owners (views share it)
+	OwnerIdx int
+	Owners   []sdk.AccAddress
 
 	Owner, Other1, Other2 sdk.AccAddress
 	// LP is the helper account that created the liquidity pair/pool, made the first trade and funded
@@ -124,8 +134,43 @@ func c12LimitBuy(w *c12World, who sdk.AccAddress, price sdk.Dec, amt int64, life
 		sdk.NewCoin(c12DenomCMST, offer.Add(fee).AddRaw(10)), c12DenomCMDX, price, sdk.NewInt(amt), lifespan)
 }
 
+// c12Setup: the single-owner state (Owner = addrN(1) holds every position).
 func c12Setup(t *testing.T, a *chain.App, ctx sdk.Context) *c12World {
+	return c12SetupN(t, a, ctx, 1)[0]
+}
+
+// c12Orders: for each kind of position, the order (indices into the owner list) in which the owners
+// create their position of that kind.  With three owners A, B, C (indices 0, 1, 2):
+//
+//	vault   ids 1,2,3 -> A,B,C        locker ids 1,2,3 -> B,C,A
+//	lend    ids 1,2,3 -> C,A,B (the lend position WITHOUT a borrow), ids 4,5,6 -> A,B,C (the one borrowed against)
+//	borrow  ids 1,2,3 -> B,C,A (on lends 5,6,4)
+//	limit orders in the order C,A,B, market-making orders in the order B,C,A
+//
+// so for every n the owners of vault #n, lend #n and borrow #n are three different accounts, and the
+// owner of locker #n differs from the owners of vault #n and lend #n.
+type c12Orders struct{ Vault, Locker, Lend, LendB, Borrow, Order, MM []int }
+
+func c12OrdersFor(n int) c12Orders {
+	rot := func(k int) []int {
+		out := make([]int, n)
+		for i := range out {
+			out[i] = (i + k) % n
+		}
+		return out
+	}
+	return c12Orders{Vault: rot(0), Locker: rot(1), Lend: rot(2), LendB: rot(0), Borrow: rot(1), Order: rot(2), MM: rot(1)}
+}
+
+// c12SetupN: nOwners position owners (addrN(1), addrN(4), addrN(5), ...); returns one view per owner.
+func c12SetupN(t *testing.T, a *chain.App, ctx sdk.Context, nOwners int) []*c12World {
 	w := &c12World{Owner: addrN(1), Other1: addrN(2), Other2: addrN(3), LP: addrN(9), Prices: map[uint64]uint64{}}
+	w.Owners = []sdk.AccAddress{w.Owner}
+	for i := 1; i < nOwners; i++ {
+		w.Owners = append(w.Owners, addrN(3+i))
+	}
+	ord := c12OrdersFor(nOwners)
+	views := make([]*c12World, nOwners)
 
 	// ---------- apps (commodo must be app 3: lend hard-codes app id 3 in RemoveFaultyAuctions) ----------
 	harbor := c12AddApp(t, a, ctx, "harbor", "harbor")
@@ -154,7 +199,7 @@ func c12Setup(t *testing.T, a *chain.App, ctx sdk.Context) *c12World {
 	// ---------- accounts ----------
 	rich := sdk.NewCoins(c12Coin(c12DenomCMDX, 1_000_000_000_000), c12Coin(c12DenomCMST, 1_000_000_000_000), c12Coin(c12DenomATOM, 1_000_000_000_000),
 		c12Coin(c12DenomHARBOR, 1_000_000_000_000), c12Coin(c12DenomUSDC, 1_000_000_000_000))
-	for _, who := range []sdk.AccAddress{w.Owner, w.Other1, w.Other2, w.LP} {
+	for _, who := range append([]sdk.AccAddress{w.Other1, w.Other2, w.LP}, w.Owners...) {
 		fund(t, a, ctx, who, rich)
 	}
 
@@ -280,88 +325,128 @@ func c12Setup(t *testing.T, a *chain.App, ctx sdk.Context) *c12World {
 	}
 	w.LastPrice = *pair.LastPrice
 
-	// ================= block 2: Owner deposits into the pool (pool coins are minted at the end of the block) =================
-	c12Exec(t, a, ctx, "liquidity Deposit", liquiditytypes.NewMsgDeposit(cswap, w.Owner, w.LiqPool,
-		sdk.NewCoins(c12Coin(c12DenomCMDX, 100_000_000), c12Coin(c12DenomCMST, 200_000_000))))
+	// ================= block 2: every owner deposits into the pool (pool coins are minted at the end of the block) =================
+	for _, who := range w.Owners {
+		c12Exec(t, a, ctx, "liquidity Deposit", liquiditytypes.NewMsgDeposit(cswap, who, w.LiqPool,
+			sdk.NewCoins(c12Coin(c12DenomCMDX, 100_000_000), c12Coin(c12DenomCMST, 200_000_000))))
+	}
 	ctx = c12NextBlock(a, ctx)
-	pc := bal(a, ctx, w.Owner, w.PoolCoinDenom)
-	if !pc.IsPositive() {
-		t.Fatal("c12Setup: Owner received no pool coins")
+	for _, who := range w.Owners {
+		if !bal(a, ctx, who, w.PoolCoinDenom).IsPositive() {
+			t.Fatal("c12Setup: an owner received no pool coins")
+		}
+	}
+	// the views: copies of the configured world, one per owner
+	for i := range views {
+		v := *w
+		v.Owner, v.OwnerIdx = w.Owners[i], i
+		views[i] = &v
 	}
 
 	// ================= block 3: farm, resting limit order, resting market-making orders =================
-	c12Exec(t, a, ctx, "Farm", liquiditytypes.NewMsgFarm(cswap, w.LiqPool, w.Owner, sdk.NewCoin(w.PoolCoinDenom, pc.QuoRaw(2))))
+	for _, v := range views {
+		pc := bal(a, ctx, v.Owner, w.PoolCoinDenom)
+		c12Exec(t, a, ctx, "Farm", liquiditytypes.NewMsgFarm(cswap, w.LiqPool, v.Owner, sdk.NewCoin(w.PoolCoinDenom, pc.QuoRaw(2))))
+	}
 	// 5% under the last price: inside the +-10% band, never matched by the pool (it sells above its price)
 	restPrice := amm.PriceToDownTick(w.LastPrice.Mul(c12Dec("0.95")), int(liquiditytypes.DefaultTickPrecision))
-	c12Exec(t, a, ctx, "LimitOrder", c12LimitBuy(w, w.Owner, restPrice, 1_000_000, 20*time.Hour))
-	pair, _ = a.LiquidityKeeper.GetPair(ctx, cswap, w.LiqPair)
-	w.OrderID = pair.LastOrderId
-	c12Exec(t, a, ctx, "MMOrder", c12MMOrder(w, w.Owner))
-	idx, found := a.LiquidityKeeper.GetMMOrderIndex(ctx, w.Owner, cswap, w.LiqPair)
-	if !found || len(idx.OrderIds) == 0 {
-		t.Fatal("c12Setup: no market-making order index")
+	for _, i := range ord.Order {
+		v := views[i]
+		c12Exec(t, a, ctx, "LimitOrder", c12LimitBuy(w, v.Owner, restPrice, 1_000_000, 20*time.Hour))
+		pair, _ = a.LiquidityKeeper.GetPair(ctx, cswap, w.LiqPair)
+		v.OrderID = pair.LastOrderId
 	}
-	w.MMOrderIDs = idx.OrderIds
+	for _, i := range ord.MM {
+		v := views[i]
+		c12Exec(t, a, ctx, "MMOrder", c12MMOrder(w, v.Owner))
+		idx, found := a.LiquidityKeeper.GetMMOrderIndex(ctx, v.Owner, cswap, w.LiqPair)
+		if !found || len(idx.OrderIds) == 0 {
+			t.Fatal("c12Setup: no market-making order index")
+		}
+		v.MMOrderIDs = idx.OrderIds
+	}
 	ctx = c12NextBlock(a, ctx)
 
 	// ================= block 4 (the final block): every other position =================
 	pair, _ = a.LiquidityKeeper.GetPair(ctx, cswap, w.LiqPair)
-	ord, found := a.LiquidityKeeper.GetOrder(ctx, cswap, w.LiqPair, w.OrderID)
-	if !found || ord.Orderer != w.Owner.String() || !(ord.BatchId < pair.CurrentBatchId) || !ord.OpenAmount.Equal(sdk.NewInt(1_000_000)) {
-		t.Fatalf("c12Setup: resting order wrong: found=%v %+v (pair batch %d)", found, ord, pair.CurrentBatchId)
-	}
-	for _, id := range w.MMOrderIDs {
-		if o, ok := a.LiquidityKeeper.GetOrder(ctx, cswap, w.LiqPair, id); !ok || !o.OpenAmount.IsPositive() {
-			t.Fatalf("c12Setup: market-making order %d not resting", id)
+	for _, v := range views {
+		ord, found := a.LiquidityKeeper.GetOrder(ctx, cswap, w.LiqPair, v.OrderID)
+		if !found || ord.Orderer != v.Owner.String() || !(ord.BatchId < pair.CurrentBatchId) || !ord.OpenAmount.Equal(sdk.NewInt(1_000_000)) {
+			t.Fatalf("c12Setup: resting order wrong: found=%v %+v (pair batch %d)", found, ord, pair.CurrentBatchId)
+		}
+		for _, id := range v.MMOrderIDs {
+			if o, ok := a.LiquidityKeeper.GetOrder(ctx, cswap, w.LiqPair, id); !ok || !o.OpenAmount.IsPositive() {
+				t.Fatalf("c12Setup: market-making order %d not resting", id)
+			}
 		}
 	}
 
-	// vault: 100 CMDX ($200) against 50 CMST
-	c12Exec(t, a, ctx, "vault MsgCreate", vaulttypes.NewMsgCreateRequest(w.Owner, harbor, w.ExtPair, sdk.NewInt(100_000_000), sdk.NewInt(50_000_000)))
-	vm, found := a.VaultKeeper.GetUserAppExtendedPairMappingData(ctx, w.Owner.String(), harbor, w.ExtPair)
-	if !found {
-		t.Fatal("c12Setup: vault mapping not found")
+	// vaults: 100 CMDX ($200) against 50 CMST
+	for _, i := range ord.Vault {
+		v := views[i]
+		c12Exec(t, a, ctx, "vault MsgCreate", vaulttypes.NewMsgCreateRequest(v.Owner, harbor, w.ExtPair, sdk.NewInt(100_000_000), sdk.NewInt(50_000_000)))
+		vm, found := a.VaultKeeper.GetUserAppExtendedPairMappingData(ctx, v.Owner.String(), harbor, w.ExtPair)
+		if !found {
+			t.Fatal("c12Setup: vault mapping not found")
+		}
+		v.VaultID = vm.VaultId
 	}
-	w.VaultID = vm.VaultId
-	// stable-mint vault: 100 USDC
+	// stable-mint vault: 100 USDC (ONE shared pool per extended pair: created by the first owner)
 	c12Exec(t, a, ctx, "vault MsgCreateStableMint", vaulttypes.NewMsgCreateStableMintRequest(w.Owner, harbor, w.StableExtPair, sdk.NewInt(100_000_000)))
 	w.StableVaultID = a.VaultKeeper.GetIDForStableVault(ctx)
 	if sv, ok := a.VaultKeeper.GetStableMintVault(ctx, w.StableVaultID); !ok || sv.ExtendedPairVaultID != w.StableExtPair {
 		t.Fatal("c12Setup: stable-mint vault not found")
 	}
 
-	// locker: 100 CMST
-	c12Exec(t, a, ctx, "MsgCreateLocker", lockertypes.NewMsgCreateLockerRequest(w.Owner.String(), sdk.NewInt(100_000_000), w.CMST, harbor))
-	lm, found := a.LockerKeeper.GetUserLockerAssetMapping(ctx, w.Owner.String(), harbor, w.CMST)
-	if !found || lm.LockerId == 0 {
-		t.Fatal("c12Setup: locker mapping not found")
+	// lockers: 100 CMST
+	for _, i := range ord.Locker {
+		v := views[i]
+		c12Exec(t, a, ctx, "MsgCreateLocker", lockertypes.NewMsgCreateLockerRequest(v.Owner.String(), sdk.NewInt(100_000_000), w.CMST, harbor))
+		lm, found := a.LockerKeeper.GetUserLockerAssetMapping(ctx, v.Owner.String(), harbor, w.CMST)
+		if !found || lm.LockerId == 0 {
+			t.Fatal("c12Setup: locker mapping not found")
+		}
+		v.LockerID = lm.LockerId
 	}
-	w.LockerID = lm.LockerId
 
 	// lend: 100 ATOM (no borrow), 1000 CMDX of which 500 cCMDX back a borrow of 100 CMST
-	c12Exec(t, a, ctx, "Lend ATOM", lendtypes.NewMsgLend(w.Owner.String(), w.ATOM, c12Coin(c12DenomATOM, 100_000_000), w.LendPool, commodo))
-	c12Exec(t, a, ctx, "Lend CMDX", lendtypes.NewMsgLend(w.Owner.String(), w.CMDX, c12Coin(c12DenomCMDX, 1_000_000_000), w.LendPool, commodo))
 	var ok bool
-	if w.LendID, ok = a.LendKeeper.GetLendIDForAssetIDPoolID(ctx, w.Owner.String(), w.ATOM, w.LendPool); !ok {
-		t.Fatal("c12Setup: lend position not found")
+	for _, i := range ord.Lend {
+		v := views[i]
+		c12Exec(t, a, ctx, "Lend ATOM", lendtypes.NewMsgLend(v.Owner.String(), w.ATOM, c12Coin(c12DenomATOM, 100_000_000), w.LendPool, commodo))
+		if v.LendID, ok = a.LendKeeper.GetLendIDForAssetIDPoolID(ctx, v.Owner.String(), w.ATOM, w.LendPool); !ok {
+			t.Fatal("c12Setup: lend position not found")
+		}
 	}
-	if w.BorrowLendID, ok = a.LendKeeper.GetLendIDForAssetIDPoolID(ctx, w.Owner.String(), w.CMDX, w.LendPool); !ok {
-		t.Fatal("c12Setup: second lend position not found")
+	for _, i := range ord.LendB {
+		v := views[i]
+		c12Exec(t, a, ctx, "Lend CMDX", lendtypes.NewMsgLend(v.Owner.String(), w.CMDX, c12Coin(c12DenomCMDX, 1_000_000_000), w.LendPool, commodo))
+		if v.BorrowLendID, ok = a.LendKeeper.GetLendIDForAssetIDPoolID(ctx, v.Owner.String(), w.CMDX, w.LendPool); !ok {
+			t.Fatal("c12Setup: second lend position not found")
+		}
 	}
-	c12Exec(t, a, ctx, "Borrow", lendtypes.NewMsgBorrow(w.Owner.String(), w.BorrowLendID, w.BorrowPair, false,
-		c12Coin(c12DenomCCMDX, 500_000_000), c12Coin(c12DenomCMST, 100_000_000)))
-	if w.BorrowID, ok = a.LendKeeper.GetBorrowIDForAddressByPair(ctx, w.Owner.String(), w.BorrowPair); !ok {
-		t.Fatal("c12Setup: borrow position not found")
-	}
-	if lp, _ := a.LendKeeper.GetLend(ctx, w.LendID); lp.AppID != w.LendApp {
-		t.Fatalf("c12Setup: lend app id %d", lp.AppID)
+	for _, i := range ord.Borrow {
+		v := views[i]
+		c12Exec(t, a, ctx, "Borrow", lendtypes.NewMsgBorrow(v.Owner.String(), v.BorrowLendID, w.BorrowPair, false,
+			c12Coin(c12DenomCCMDX, 500_000_000), c12Coin(c12DenomCMST, 100_000_000)))
+		if v.BorrowID, ok = a.LendKeeper.GetBorrowIDForAddressByPair(ctx, v.Owner.String(), w.BorrowPair); !ok {
+			t.Fatal("c12Setup: borrow position not found")
+		}
+		if lp, _ := a.LendKeeper.GetLend(ctx, v.LendID); lp.AppID != w.LendApp || lp.Owner != v.Owner.String() {
+			t.Fatalf("c12Setup: lend app id %d owner %s", lp.AppID, lp.Owner)
+		}
+		if bp, _ := a.LendKeeper.GetBorrow(ctx, v.BorrowID); bp.LendingID != v.BorrowLendID {
+			t.Fatalf("c12Setup: borrow %d sits on lend %d, want %d", v.BorrowID, bp.LendingID, v.BorrowLendID)
+		}
 	}
 
-	// auctionsV2 limit bid: 20 CMST for CMDX collateral at premium 5
-	c12Exec(t, a, ctx, "MsgDepositLimitBid", auctionsv2types.NewMsgDepositLimitBid(w.Owner.String(), w.BidCollateralAsset, w.BidDebtAsset, w.BidPremium,
-		c12Coin(c12DenomCMST, 20_000_000)))
-	if _, ok := a.NewaucKeeper.GetUserLimitBidData(ctx, w.BidDebtAsset, w.BidCollateralAsset, w.BidPremium, w.Owner.String()); !ok {
-		t.Fatal("c12Setup: limit bid not found")
+	// auctionsV2 limit bids: 20 CMST for CMDX collateral at premium 5
+	for _, v := range views {
+		c12Exec(t, a, ctx, "MsgDepositLimitBid", auctionsv2types.NewMsgDepositLimitBid(v.Owner.String(), w.BidCollateralAsset, w.BidDebtAsset, w.BidPremium,
+			c12Coin(c12DenomCMST, 20_000_000)))
+		if _, ok := a.NewaucKeeper.GetUserLimitBidData(ctx, w.BidDebtAsset, w.BidCollateralAsset, w.BidPremium, v.Owner.String()); !ok {
+			t.Fatal("c12Setup: limit bid not found")
+		}
 	}
 
 	// a running dutch auction: the LP opens a vault exactly at the minimum collateral ratio (75 CMDX = $150 against
@@ -381,8 +466,10 @@ func c12Setup(t *testing.T, a *chain.App, ctx sdk.Context) *c12World {
 		t.Fatal("c12Setup: the LP vault was not liquidated")
 	}
 
-	w.Ctx = ctx
-	return w
+	for _, v := range views {
+		v.Ctx, v.StableVaultID, v.AuctionID = ctx, w.StableVaultID, w.AuctionID
+	}
+	return views
 }
 
 // c12MMOrder: sell 1 CMDX over [+3%,+5%] and buy 1 CMDX over [-5%,-3%] of the last price (prices on ticks)
